@@ -53,6 +53,7 @@ pub fn lookup(scen: &str) -> Option<Scenario> {
         "c16" => scen_c16::run,
         "rawrt" => scen_c16::run_raw,
         "c09big" => scen_rt::run_c09_big,
+        "c02big" => scen_rt::run_c02_big,
         "rtsweep" => scen_rt::run_short_sweep,
         "synth" => scen_synth::run,
         "bent" => scen_bent::run,
